@@ -209,6 +209,17 @@ def e04_bad_length_reference(tree, pts, ins, pick):
 
 
 def e05_second_length_reference(tree, pts, ins, pick):
+    if pick([0, 1, 2, 3]) == 0:
+        # both references are new; the FIRST one is an unnamed hardcoded string
+        c0 = [p for p in _clean(pts) if not p.opt]
+        if c0:
+            p = pick(c0)
+            names = _all_names(p)
+            ln = _fresh(names, "zlen")
+            p.lst[p.idx:p.idx] = [{"tag": "length", "name": ln, "type": "char"},
+                                  {"tag": "field", "name": None, "type": "string", "length": ln, "value": "abc"},
+                                  {"tag": "field", "name": _fresh(names | {ln}, "zstr"), "type": "string", "length": ln}]
+            return "first_reference_unnamed:" + p.placement
     c = [p for p in _clean(pts) if any(p.lengths.values())]
     if not c:
         return None
